@@ -70,6 +70,12 @@ Definition fp_body (hs : list bool) (op : fop) : list bool :=
   | FReadState => hs
   end.
 Definition fp_exit (hs : list bool) : list bool := map (fun _ => true) hs.
+(* open() when the path at position k cannot be opened: `{f: open(f, mode) for f in files}` raises inside the comprehension,
+   `file_handles` is never bound, the partial dict is dropped and with it the only references to the k handles opened so far,
+   which CPython's reference counting finalises (= closes) before the exception leaves open().  The result is the closed-flags
+   of those k handles as the process holds them when the with-statement has raised. *)
+Definition fp_open_failing (k : nat) : list bool := fp_exit (fp_open k).
+Definition count_open (hs : list bool) : nat := length (filter negb hs).
 
 (* ---------------- wire format ---------------- *)
 Definition dec_top (v : val) : nat * top :=
@@ -99,12 +105,13 @@ Definition run_tmppool (v : val) : val := L (tp_trace tp_init (map dec_top (unL 
 (* two pools that are alive at the same time (nested contexts): each is a pool of its own - own list, own files *)
 Definition run_two_tmppools (v : val) : val :=
   match unL v with [a; b] => L [run_tmppool a; run_tmppool b] | _ => L [] end.
-(* [n, body ops] -> [flags inside after body, flags after exit] *)
+(* [n, body ops] -> [flags inside after body, flags after exit, handles left open by a pool of the same n paths plus one
+   that cannot be opened] *)
 Definition run_filepool (v : val) : val :=
   match unL v with
   | [n; ops] =>
       let hs := fold_left fp_body (map (fun o => match unL o with [I 0; k] => FCloseOne (unN k) | _ => FReadState end) (unL ops))
                           (fp_open (unN n)) in
-      L [L (map vB hs); L (map vB (fp_exit hs))]
+      L [L (map vB hs); L (map vB (fp_exit hs)); vN (count_open (fp_open_failing (unN n)))]
   | _ => L []
   end.
